@@ -31,7 +31,7 @@ def gen_tree(rng, depth, name):
         else:
             # a third of the files are (where possible) created as HARD LINKS to an earlier file of the same size:
             # two paths, one inode - each path is still an entry of its own
-            kids.append(('f', n, rng.choice([0, 5, 100, 101, 1000, 1024, 1025, 2000]), rng.random() < 0.35))
+            kids.append(('f', n, rng.choice([0, 5, 100, 101, 500, 1000, 1024, 1025, 2000]), rng.random() < 0.35))
     return ('d', name, kids)
 
 
@@ -101,8 +101,11 @@ def gen_case(rng, with_ignore):
     p = dict(file_type=rng.choice(["any", "directory", "file", "file", "link"]), hidden=rng.random() < 0.4, recurse=rng.random() < 0.6,
              patterns=rng.sample(RES, rng.choice([0, 0, 1, 2])), excludes=rng.sample(RES[1:], rng.choice([0, 0, 1])),
              size=rng.choice([None, None, 100, 5, 0, 1000, 1024]))
-    # the same limit written with a unit (byte_unit: k/kB = 1000, KiB = 1024)
-    p["size_text"] = {1000: rng.choice(["1000", "1kB", "1k", "1 kB", "1000B"]), 1024: rng.choice(["1024", "1KiB", "1Ki"]), 100: rng.choice(["100", "100B", "0.1kB"])}.get(p["size"])
+    # the same limit written with a unit (byte_unit: k/kB = 1000, KiB = 1024); the unit means BYTES however it
+    # is capitalised (find.rs parses with ignore_case: `1kb`, `1Kb`, `1KB`, `1000b` are all 1000 bytes, never bits)
+    p["size_text"] = {1000: rng.choice(["1000", "1kB", "1k", "1 kB", "1000B", "1kb", "1Kb", "1KB", "1000b", "1 kb", "1K"]),
+                      1024: rng.choice(["1024", "1KiB", "1Ki", "1kib", "1Kib", "1KIB", "1 kib"]),
+                      100: rng.choice(["100", "100B", "0.1kB", "100b", "0.1kb", "0.1KB"])}.get(p["size"])
     p["root_suffix"] = [rng.choice(["", "", "", "/", "/.", "//"]) for _ in roots]
     return t, roots, p
 
